@@ -35,6 +35,8 @@ SLICES = {
     "D-breaks": ("a: \"\r\n\x85\u2028", 6, 7, True),
     "E-tabs-bom": ("a: \n#\t\ufeff", 6, 7, False),
     "F-dash-flow": ("a: \n-?[]{},&*!%@`", 4, 5, True),
+    "G-tab-quote": ("a:\"' \t\n", 6, 7, True),
+    "H-tab-plain-block": ("a:|> \t\n#", 6, 7, True),
 }
 
 BREAKS = "\n\x85\u2028\u2029"
@@ -365,8 +367,51 @@ class GrammarSystem(System):
         return check_text(case, True)
 
 
+WS = ["", " ", "\t", " \t", "\t ", "\t\t", "  "]
+
+
+class FoldSystem(System):
+    """Multi-line scalars of every style with every white-space run (blanks and TABs) around the line breaks."""
+
+    name = "fold-whitespace"
+    description = ("values of the form Q a WS1 BREAKS INDENT WS2 b [WS3 BREAKS INDENT WS4 c] Q for Q in {plain, ', \"} and folded/literal "
+                   "block scalars with WS runs at line ends; WS over all strings of length <= 2 of {space, TAB}; 1-2 line breaks")
+
+    def bounds(self):
+        return {"ws_runs": len(WS), "lines": 3}
+
+    def alphabet(self):
+        return {"ws": WS, "quotes": ["", "'", '"'], "breaks": ["\n", "\n\n"], "indent": [" ", "  "]}
+
+    def rule(self):
+        return "every combination within the bounds; non-trivial = inside the YAML subset, or >=1 pair, or TokenizeError"
+
+    def cases(self):
+        for q in ("", "'", '"'):
+            for w1 in WS:
+                for br in ("\n", "\n\n"):
+                    for ind in (" ", "  "):
+                        for w2 in WS:
+                            base = f"k: {q}a{w1}{br}{ind}{w2}b"
+                            yield base + q
+                            yield base + q + "\nz: 1"
+                            for w3 in WS[:4]:
+                                for w4 in WS[:4]:
+                                    yield f"{base}{w3}{br}{ind}{w4}c{q}"
+        for h in ("|", ">", "|-", ">+", ">2", "|1"):
+            for w1 in WS:
+                for w2 in WS:
+                    for w3 in WS[:4]:
+                        yield f"k: {h}\n  a{w1}\n  {w2}b{w3}\n"
+                        yield f"k: {h}\n  a{w1}\n\n   {w2}b\n  c{w3}"
+                        yield f"k: {h}{w1}\n  a\n{w2}\n  b"
+
+    def run(self, case):
+        return check_text(case, True)
+
+
 def systems(tier):
-    out = []
+    out = [FoldSystem(tier)]
     for name, (alpha, nq, nt, agree) in SLICES.items():
         out.append(SliceSystem(tier, name, alpha, nq if tier == "quick" else nt, agree))
     out.append(GrammarSystem(tier))
